@@ -4,6 +4,7 @@ Model: KV.Comm (CState, allreduceBucketed, flush, run) = TorchDistributedCommuni
 AllreduceTensorBucket of kfac/distributed.py.  Property theorems only; helpers in Lemmas/Bucket.lean.
 -/
 import KfacVerif.Lemmas.Bucket
+import KfacVerif.Lemmas.BucketLink
 
 namespace KV.C08
 open KV KV.Comm
@@ -91,5 +92,66 @@ theorem value_eq_unbucketed (lens : List Nat) (X : List (List (List Int))) (hne 
     unflatten lens (sumRanks (X.map flatten))
       = (List.range lens.length).map fun i => sumRanks (X.map fun xs => xs.getD i []) := by
   exact unflatten_sumRanks lens X hne hl
+
+
+section PrecondLink
+open KV.Precond
+
+/-! ### the bucket inside M-Precond IS the bucket state machine of M-Comm
+    (so everything proved above about `TorchDistributedCommunicator` applies to the factor
+    all-reduces of the K-FAC state machine) -/
+
+/-- M-Precond's open bucket (world group only: KAISA's `factor_group` is always the world) as an
+    M-Comm communicator state -/
+def absBucket (c : Cfg) (s : St) : Comm.CState :=
+  { cap := c.cap,
+    buckets := [(worldRanks c, some { items := s.bucket.map fun b =>
+      ({ tid := b.req, elems := b.elems, esize := c.fe, dtype := 0 } : Comm.Item) })] }
+
+/-- (members, element count) of the collectives a piece of script / a list of M-Comm events stands for -/
+def issuesOf : List GAct → List (List Nat × Nat)
+  | [] => []
+  | .issue m d :: t => (m, d.elems) :: issuesOf t
+  | _ :: t => issuesOf t
+
+def eventsOf : List Comm.Event → List (List Nat × Nat)
+  | [] => []
+  | .allreduce g _ e :: t => (g, e) :: eventsOf t
+  | .broadcast g _ e _ :: t => (g, e) :: eventsOf t
+
+/-- the script acts appended by an operation -/
+def newActs (before after : St) : List GAct := after.acts.drop before.acts.length
+
+theorem issuesOf_eq (l : List GAct) : issuesOf l = BucketLink.issues l := by
+  induction l with
+  | nil => rfl
+  | cons a t ih => cases a <;> simp [issuesOf, BucketLink.issues, ih]
+
+theorem eventsOf_eq (l : List Comm.Event) : eventsOf l = BucketLink.events l := by
+  induction l with
+  | nil => rfl
+  | cons a t ih => cases a <;> simp [eventsOf, BucketLink.events, ih]
+
+/-- `flush_allreduce_buckets()`: same events, nothing pending afterwards -/
+theorem flush_sim (c : Cfg) (s : St) :
+    issuesOf (newActs s (flushBucket c s)) = eventsOf (Comm.flush (absBucket c s)).2 ∧
+    (flushBucket c s).bucket = [] ∧ Comm.pending (Comm.flush (absBucket c s)).1 = [] := by
+  rw [issuesOf_eq, eventsOf_eq]
+  exact BucketLink.flush_link c s
+
+/-- `reduce_*_factor` with bucketing: the request goes through `allreduce_bucketed` of M-Comm —
+    same emitted all-reduce (if the capacity test fires), same resulting open bucket -/
+theorem reduce_sim (c : Cfg) (s : St) (l : Nat) (isA : Bool) (hb : c.bucketed = true) (hw : c.world ≠ 1)
+    (hne : (reduceFactor c s l isA).err = none) (hs : s.err = none) :
+    let n := if isA then (c.layers.getD l ⟨0, 0⟩).aDim else (c.layers.getD l ⟨0, 0⟩).gDim
+    let r := Comm.allreduceBucketed (absBucket c s) (worldRanks c) s.nextReq [n, n] c.fe 0 c.symAware
+    issuesOf (newActs s (reduceFactor c s l isA)) = eventsOf r.2.1 ∧
+    absBucket c (reduceFactor c s l isA) = r.1 ∧ r.2.2 = .future := by
+  intro n r
+  rw [issuesOf_eq, eventsOf_eq]
+  exact BucketLink.reduce_link c s l isA hb hw hne hs
+
+
+end PrecondLink
 
 end KV.C08
